@@ -197,6 +197,7 @@ PROPS["C10"] = {
           quick_params={"UL": 2, "PL": 2, "RL": 1, "NL": 1}, thorough_params={"UL": 2, "PL": 2, "RL": 2, "NL": 2}),
         R("digest-sha256", "pkg/auth", "pkg/auth", ["ZzC10Digest"], flags={"concoff": True, "qtimeout": 120000, "unwind": 200},
           quick_params={"SHA256": 1, "UL": 1, "PL": 1, "RL": 1, "NL": 1}, thorough_params={"SHA256": 1, "UL": 2, "PL": 1, "RL": 1, "NL": 1}),
+        R("admission", "pkg/auth", "pkg/auth", ["ZzC10Admission"], flags={"concoff": True, "qtimeout": 120000, "unwind": 200}),
     ],
 }
 
@@ -216,7 +217,8 @@ PROPS["C05"] = {
 PROPS["C12"] = {
     "level_text": "Sequential kernel only: description.Media.URL (the client's control-attribute resolution, executed with the real net/url code) on a control attribute made of a fixed prefix/suffix and 1..2 (quick) / 3 (thorough) fully symbolic bytes never returns (nil, nil) and never panics, so the client always has either a URL for SETUP or an error to report.",
     "level_note": "Everything else of C12 (API calls returning within timeouts, Close leaving nothing behind, behaviour under dropped/delayed responses, the 2500-line run loop) is scheduling and I/O and is NOT covered; regexp matching is done natively on concrete subjects and, for the symbolic control attribute, by the literal pre-filter (no '@' => no match, holes exclude '@').",
-    "runs": [R("media-url", "pkg/description", "pkg/description", ["ZzC12MediaURL"], flags={"concoff": True}, quick_params={"HL": 2}, thorough_params={"HL": 3})],
+    "runs": [R("media-url", "pkg/description", "pkg/description", ["ZzC12MediaURL"], flags={"concoff": True}, quick_params={"HL": 2}, thorough_params={"HL": 3}),
+             R("media-url-any", "pkg/description", "pkg/description", ["ZzC12MediaURLAny"], flags={"concoff": True}, quick_params={"CL": 2}, thorough_params={"CL": 4})],
 }
 PROPS["C02"] = {
     "level_text": "Two sequential kernels on the real code: (1) ServerSession.handleRequestInner state guard: for every session state and every state-changing method the request is refused with ErrServerInvalidState (status >= 400, state untouched, application not called) exactly when (method, state) is outside the RFC 2326 table written in the harness; a request refused by validation or by the application leaves the state unchanged; a request from another connection than the pinned one is refused in every state. (2) ServerConn.handleRequestOuter: exactly one response is written per request for all eleven methods, with the request's CSeq echoed (symbolic value), 400 without CSeq.",
